@@ -117,9 +117,15 @@ class Tr:
             return None if b is None else b + "." + e.attr
         if isinstance(e, ast.Subscript):
             b = self.raw_path(e.value)
-            k = e.slice
-            key = repr(k.value) if isinstance(k, ast.Constant) and isinstance(k.value, (str, int)) else ""
-            return None if b is None else b + "[" + key.replace(".", "_").replace("[", "_") + "]"
+            # the key is kept as TEXT: d[a, i] = deepcopy(x); d[a, i].f[g] = ... speaks of one element.  (Two occurrences of the same
+            # key text are taken to denote the same element; a key without a binding of its own falls back to any bound sibling,
+            # aliases first.)
+            try:
+                key = ast.unparse(e.slice)
+            except Exception:   # noqa
+                key = ""
+            key = re.sub(r"[^A-Za-z0-9_,'\-]", "", key.replace(".", "_"))
+            return None if b is None else b + "[" + key + "]"
         if isinstance(e, ast.Call) and isinstance(e.func, ast.Attribute) and e.func.attr in ("get", "values", "items", "keys", "setdefault"):
             b = self.raw_path(e.func.value)
             return None if b is None else b + ("[]" if e.func.attr != "keys" else "[k]")
@@ -250,6 +256,51 @@ class Tr:
             self.copyobj[lpath] = c[1]
             self.emit(f"INew {v}")
 
+    def bind_elements(self, lpath, e, loopvars, depth=0):
+        """a freshly built container (literal or comprehension) may hold ALIASES of foreign containers as elements:
+        x = {k: v for k, v in foreign.items()}, x = {p: {"_": cov} for p, cov in norm.items()}, x = [a, b]"""
+        if depth > 3:
+            return
+        def alias_of(v):
+            if isinstance(v, ast.Name) and v.id in loopvars:
+                return loopvars[v.id]
+            if isinstance(v, (ast.Name, ast.Attribute, ast.Subscript)):
+                c = self.classify(v)
+                return ("alias", c[1]) if c[0] == "alias" else (("localalias", c[1]) if c[0] == "localalias" else None)
+            if isinstance(v, ast.IfExp):
+                return alias_of(v.body) or alias_of(v.orelse)
+            return None
+        vals, lv = [], dict(loopvars)
+        if isinstance(e, (ast.ListComp, ast.SetComp, ast.GeneratorExp, ast.DictComp)):
+            for g in e.generators:
+                ec = self.element_class(g.iter)
+                names = [g.target] if isinstance(g.target, ast.Name) else [x for x in ast.walk(g.target) if isinstance(x, ast.Name)]
+                for k, nm in enumerate(names):
+                    if ec[0] == "alias":
+                        # tuple targets (k, v) over .items(): every component may alias an element of the iterable
+                        lv[nm.id] = ("alias", ec[1] + ("" if isinstance(g.target, ast.Name) else "[]"))
+                    elif ec[0] == "localalias":
+                        lv[nm.id] = ("localalias", ec[1])
+            vals = [e.value] if isinstance(e, ast.DictComp) else [e.elt]
+        elif isinstance(e, ast.Dict):
+            vals = [v for v in e.values if v is not None]
+        elif isinstance(e, (ast.List, ast.Set, ast.Tuple)):
+            vals = list(e.elts)
+        else:
+            return
+        epath = lpath + "[]"
+        for v in vals:
+            old_lv, loopvars = loopvars, lv
+            a = alias_of(v)
+            loopvars = old_lv
+            if a is not None:
+                if not (epath in self.state and self.state[epath][0] == "alias"):
+                    self.bind(epath, a)
+            elif isinstance(v, (ast.Dict, ast.List, ast.Set, ast.Tuple, ast.ListComp, ast.SetComp, ast.DictComp)):
+                if epath not in self.state:
+                    self.bind(epath, ("fresh", None))
+                self.bind_elements(epath, v, lv, depth + 1)
+
     def write(self, e, instr, arg=None):
         """in-place write on the container denoted by expression e"""
         p = self.raw_path(e)
@@ -347,10 +398,15 @@ class Tr:
             self.calls_in(s.value)
             for t in s.targets:
                 self.target_bind(t, c)
+                if c[0] == "fresh" and isinstance(t, ast.Name):
+                    self.bind_elements(t.id, s.value, {})
         elif isinstance(s, ast.AnnAssign):
             if s.value is not None:
                 self.calls_in(s.value)
-                self.target_bind(s.target, self.classify(s.value))
+                c = self.classify(s.value)
+                self.target_bind(s.target, c)
+                if c[0] == "fresh" and isinstance(s.target, ast.Name):
+                    self.bind_elements(s.target.id, s.value, {})
         elif isinstance(s, ast.AugAssign):
             self.calls_in(s.value)
             if isinstance(s.target, ast.Subscript):
